@@ -127,13 +127,13 @@ def run(ctx):
         return (table, res)
 
     trace = os.path.join(ctx.workdir, "huffman-trace.ndjson")
-    cases, maxlen, tables = (16, 256, 12) if quick else (160, 4096, 48)
+    cases, maxlen, tables = (12, 256, 16) if quick else (160, 4096, 64)
 
     def b_job():
         return core.run_harness([vh, "drive", freqs, str(ctx.seed), str(cases), str(maxlen), str(tables), trace], timeout=600)
 
-    jobs = [a_job, b_job] + ([] if quick else [lambda: model_job("flat"), lambda: model_job("deep")])
-    results = codec.parallel(jobs, max_workers=4)
+    jobs = [a_job, b_job] + ([] if quick else [lambda: model_job("flat"), lambda: model_job("deep"), lambda: model_job("zeof")])
+    results = codec.parallel(jobs, max_workers=5)
     (_, mm, res, summ, out, rc) = results[0]
     brc, bout = results[1]
 
@@ -171,7 +171,9 @@ def run(ctx):
         evaluations += bs["calls"]
         ctx.add_run("recorded trace validated by HuffmanTrace.tla", events=bs["events"], calls=bs["calls"], inputs=bs["cases"],
                     max_input_len=maxlen, frequency_tables=bs["tables"], tables_panicked=bs["tables_panicked"],
-                    tables_accepted_as_F2=len(f2), events_accepted=ok_n)
+                    tables_accepted_as_F2=len(f2), events_accepted=ok_n,
+                    tables_eof_all_zero=bs.get("tables_eof_all_zero"), tables_eof_ends_in_one=bs.get("tables_eof_ends_in_one"),
+                    eof_len_min=bs.get("eof_len_min"), eof_len_max=bs.get("eof_len_max"))
         evs = core.read_ndjson(trace)
         small = [e for e in evs if e["e"] != "table" and len(e["in"]) <= 12][:2]
         for e in small:
